@@ -379,6 +379,10 @@ func genC08(seed, index uint64, tier string) *Plan {
 			s.Name = fmt.Sprintf("verif-ns%d", counters[k])
 		}
 		s.Style = g.Pick("", "", "", "crlf", "comment", "blanklead")
+		if g.Chance(0.12) && k != "Namespace" {
+			// kept on uninstall: must not disturb the order in which the others are deleted
+			s.Keep = "keep"
+		}
 		if g.Chance(0.3) {
 			h := &HookSpec{}
 			switch g.N(5) {
